@@ -188,12 +188,140 @@ func Run(r *evid.Run) {
 	r.Assume("reference RFC 8785 serializer internal/refjson (UTF-16 sort via unicode/utf16, ES6 number layout over strconv shortest digits)")
 	K, N := 3, 4
 	if r.Tier == "thorough" {
-		K, N = 4, 5
+		K, N = 5, 6
 	}
 	objects(r, K)
 	numbers(r)
 	stringsFam(r)
 	trees(r, N)
+	wide(r)
+}
+
+// wide: objects with many members (around and beyond the sizes at which the implementation changes its
+// bookkeeping) whose names share prefixes and mix BMP-high and supplementary code points, presented in
+// systematically different orders, flat and nested; every presentation must canonicalize to the same bytes
+// as the reference serialization.
+func wide(r *evid.Run) {
+	sizes := []int{8, 17, 63, 64, 65, 66, 100}
+	if r.Tier == "thorough" {
+		sizes = []int{8, 17, 31, 32, 33, 63, 64, 65, 66, 67, 100, 129, 257, 600}
+	}
+	mkNames := func(n int) []string {
+		heads := []string{"", "a", "aa", "\ue000", "\U00010000", "\uffff", "k", "K", "\u00e9", "~"}
+		out := make([]string, n)
+		for i := range out {
+			out[i] = heads[i%len(heads)] + strconv.Itoa(i/len(heads))
+			if i%7 == 3 {
+				out[i] += strings.Repeat("x", 20) // long names (beyond the 16 bytes a comparison shortcut might use)
+			}
+		}
+		return out
+	}
+	type unit struct{ n, order int }
+	var units []unit
+	for _, n := range sizes {
+		for o := 0; o < 6+n; o++ {
+			units = append(units, unit{n, o})
+		}
+	}
+	enum.Parallel(r, len(units), func(w *enum.Worker) func(int) {
+		var cur []byte
+		var nt int64
+		w.Describe = func() any { return Case{Input: cur, InputText: string(cur), Family: "wide"} }
+		w.Done = func() { r.Nontrivial.Add(nt) }
+		return func(u int) {
+			n, o := units[u].n, units[u].order
+			names := mkNames(n)
+			idx := make([]int, n)
+			for i := range idx {
+				idx[i] = i
+			}
+			switch {
+			case o == 0: // as generated
+			case o == 1: // reversed
+				for i := range idx {
+					idx[i] = n - 1 - i
+				}
+			case o == 2: // already sorted by the reference
+				base := &refjson.Value{Kind: '{'}
+				for i := range names {
+					base.Names = append(base.Names, names[i])
+					base.Members = append(base.Members, &refjson.Value{Kind: '0', Num: strconv.Itoa(i)})
+				}
+				t := refjson.Tree(refjson.Canonical(base), refjson.Opts{})
+				pos := map[string]int{}
+				for i, nm := range names {
+					pos[nm] = i
+				}
+				for i, nm := range t.Names {
+					idx[i] = pos[nm]
+				}
+			case o == 3: // sorted, reversed
+				base := &refjson.Value{Kind: '{'}
+				for i := range names {
+					base.Names = append(base.Names, names[i])
+					base.Members = append(base.Members, &refjson.Value{Kind: '0', Num: strconv.Itoa(i)})
+				}
+				t := refjson.Tree(refjson.Canonical(base), refjson.Opts{})
+				pos := map[string]int{}
+				for i, nm := range names {
+					pos[nm] = i
+				}
+				for i, nm := range t.Names {
+					idx[n-1-i] = pos[nm]
+				}
+			case o == 4: // interleave halves
+				for i := range idx {
+					if i%2 == 0 {
+						idx[i] = i / 2
+					} else {
+						idx[i] = n - 1 - i/2
+					}
+				}
+			case o == 5: // stride 7 (coprime walk when possible)
+				st := 7
+				for gcd(st, n) != 1 {
+					st++
+				}
+				for i := range idx {
+					idx[i] = (i * st) % n
+				}
+			default: // rotation by o-5
+				for i := range idx {
+					idx[i] = (i + o - 5) % n
+				}
+			}
+			base := &refjson.Value{Kind: '{'}
+			ns := make([]string, n)
+			vs := make([]string, n)
+			for i, k := range idx {
+				base.Names = append(base.Names, names[k])
+				val := &refjson.Value{Kind: '0', Num: strconv.Itoa(k)}
+				vs[i] = strconv.Itoa(k) + ".0e0"
+				if k%11 == 5 { // a nested object in non-canonical order
+					val = &refjson.Value{Kind: '{', Names: []string{"b", "a"}, Members: []*refjson.Value{{Kind: '0', Num: "1"}, {Kind: '0', Num: "2"}}}
+					vs[i] = `{"b":1, "\u0061":2}`
+				}
+				base.Members = append(base.Members, val)
+				ns[i] = string(refjson.Quote(nil, names[k], false, false))
+			}
+			want := refjson.Canonical(base)
+			for _, ws := range wsStyles[:2] {
+				cur = []byte(obj(ns, vs, ws))
+				run1(r, "wide", cur, want, &nt)
+				cur = []byte("[" + string(cur) + "," + string(cur) + "]")
+				run1(r, "wide", cur, append(append(append(append([]byte("["), want...), ','), want...), ']'), &nt)
+			}
+		}
+	})
+	r.Bound("wide objects: %d (size, presentation order) pairs over sizes %v: generated / reversed / canonical / reverse-canonical / interleaved / strided / every rotation; names with shared prefixes, 20+ byte names, U+E000.. vs supplementary planes; flat and twice inside an array", len(units), sizes)
+}
+
+func gcd(a, b int) int {
+	for b != 0 {
+		a, b = b, a%b
+	}
+	return a
 }
 
 func run1(r *evid.Run, fam string, in []byte, want []byte, nt *int64) {
